@@ -1,5 +1,5 @@
 (* C18/Proofs.v — declarative specifications and lemmas for C18. *)
-From Relic Require Import Base.Prelude Base.Enc Generated.C18_gen C18.Model.
+From Relic Require Import Base.Prelude Base.Enc Generated.C18_gen C18.UnicodeSpec C18.Model.
 From Coq Require Import Permutation.
 
 (* ================================================================== Part 1: red-black insertion *)
@@ -981,31 +981,36 @@ Proof.
       unfold name_runes in *. unfold zlen in Hla. cbn in Hla |- *. unfold de_w_NameRunes in *. lia.
 Qed.
 
-(* the agreement domain, precisely: every code unit below 256; every surrogate half; and every code unit from 256 up that
-   unicode.ToUpper maps to itself or outside the 16-bit range (no upper-case form) *)
-Lemma unit_agrees_below_256 u : 0 <= u < 256 -> unit_agrees u = true.
+(* relic upper-cases a code unit with unicode.ToUpper of the toolchain (srcgen table go_upper_runs, kept when the result fits 16
+   bits, surrogate halves untouched); the MS-CFB order uses the Unicode Character Database table of C18/UnicodeSpec.v.  The two
+   tables are the same list of runs and no run leaves the 16-bit range, so the two functions agree on EVERY code unit. *)
+Lemma go_table_is_spec_table : go_upper_runs = spec_upper_runs.
+Proof. vm_compute. reflexivity. Qed.
+Lemma spec_runs_fit : forallb (fun r => let '(lo, hi, d) := r in (0 <=? lo) && (hi + d <=? 65535)) spec_upper_runs = true.
+Proof. vm_compute. reflexivity. Qed.
+Lemma lookup_upper_fits runs u :
+  forallb (fun r => let '(lo, hi, d) := r in (0 <=? lo) && (hi + d <=? 65535)) runs = true ->
+  lookup_upper runs u = u \/ lookup_upper runs u <= 65535.
 Proof.
-  intros H. assert (Hall : forallb unit_agrees (map Z.of_nat (seq 0 256)) = true) by (vm_compute; reflexivity).
-  rewrite forallb_forall in Hall. apply Hall. apply in_map_iff. exists (Z.to_nat u). split; [lia|]. apply in_seq. lia.
+  induction runs as [|[[lo hi] d] r IH]; cbn [lookup_upper forallb]; intros H; [left; reflexivity|].
+  apply andb_true_iff in H as [H1 H2]. destruct ((lo <=? u) && (u <=? hi)) eqn:E; [right; lia | apply IH; exact H2].
 Qed.
-Lemma upcase_id_from_256 u : 256 <= u -> upcase u = u.
-Proof. intros H. unfold upcase. repeat match goal with |- context [if ?c then _ else _] => destruct c eqn:?; try lia end. Qed.
-Lemma unit_agrees_from_256 u : 256 <= u -> unit_agrees u = (upper_unit u =? u).
-Proof. intros H. unfold unit_agrees. rewrite upcase_id_from_256 by exact H. reflexivity. Qed.
-Lemma unit_agrees_surrogate u : upper_unit_is_surrogate u = true -> unit_agrees u = true.
+Lemma upper_unit_is_upcase u : upper_unit u = upcase u.
 Proof.
-  intros H. unfold unit_agrees, upper_unit. rewrite H. rewrite upcase_id_from_256; [apply Z.eqb_refl|].
-  unfold upper_unit_is_surrogate in H. lia.
+  unfold upper_unit, upcase, upper_unit_is_surrogate, go_to_upper, upper_unit_fits. rewrite go_table_is_spec_table.
+  replace ((u >=? 55296) && (u <=? 57343)) with ((55296 <=? u) && (u <=? 57343)) by lia.
+  destruct ((55296 <=? u) && (u <=? 57343)); [reflexivity|].
+  destruct (lookup_upper_fits spec_upper_runs u spec_runs_fit) as [H|H].
+  - rewrite H. destruct (u <=? 65535); reflexivity.
+  - replace (lookup_upper spec_upper_runs u <=? 65535) with true by lia. reflexivity.
 Qed.
-(* the packed MSI stream names (0x3800..0x4840) are inside the domain *)
-Lemma unit_agrees_msi_range u : 14336 <= u <= 18496 -> unit_agrees u = true.
-Proof.
-  intros H. assert (Hall : forallb unit_agrees (map (fun k => 14336 + Z.of_nat k) (seq 0 4161)) = true) by (vm_compute; reflexivity).
-  rewrite forallb_forall in Hall. apply Hall. apply in_map_iff. exists (Z.to_nat (u - 14336)). split; [lia|]. apply in_seq. lia.
-Qed.
-(* outside the domain the two orders differ: Greek small alpha (U+03B1, upper-cased by relic to U+0391) sorts before capital beta (U+0392) for relic only *)
-Lemma relic_less_vs_cfb_outside_domain : exists a b, relic_less a b <> cfb_less a b.
-Proof. exists [945], [914]. vm_compute. discriminate. Qed.
+Lemma unit_agrees_all u : unit_agrees u = true.
+Proof. unfold unit_agrees. rewrite upper_unit_is_upcase. apply Z.eqb_refl. Qed.
+Lemma forallb_unit_agrees l : forallb unit_agrees l = true.
+Proof. induction l as [|x l IH]; cbn; [reflexivity|]. rewrite unit_agrees_all. exact IH. Qed.
+(* relic_order_is_cfb: on names of at most 31 code units (every name a directory entry can hold) lessDirEnt IS the MS-CFB order *)
+Lemma relic_less_is_cfb_less a b : zlen a < name_runes -> zlen b < name_runes -> relic_less a b = cfb_less a b.
+Proof. intros. apply relic_less_eq_cfb_less; try assumption; apply forallb_unit_agrees. Qed.
 
 (* cfb_less is a strict order on names: irreflexive and transitive (what the search-tree theorems need) *)
 Lemma units_lt_irrefl a : units_lt a a = false.
